@@ -359,10 +359,15 @@ def _schema_class(case, strict=False, drop=()):
     for f in case["fields"]:
         attrs["__annotations__"][f["name"]] = ann(f["type"])
         kw = {}
+        r = field_req(f)
         if f.get("has_default"):
             kw["default"] = dec(f["default"])
-        elif not f["required"]:
+        if isinstance(r, str):
+            kw["required"] = r
+        elif not r and not f.get("has_default"):
             kw["required"] = False
+        if f.get("deps"):
+            kw["dependencies"] = list(f["deps"])
         oe = "throw" if strict else f.get("on_error")
         if oe:
             kw["on_error"] = oe
@@ -378,6 +383,20 @@ def _schema_class(case, strict=False, drop=()):
 
 def effective(f, inv):
     return f.get("on_error") or inv
+
+
+def field_req(f):
+    """the declared `required`: False / True / a string of modes"""
+    return f["req"] if "req" in f else bool(f.get("required"))
+
+
+def is_required(f, opts):
+    """the field must be given in this parse: `required=True`, or `required='w'` under Options(mode='w')"""
+    r = field_req(f)
+    if isinstance(r, str):
+        m = opts.get("mode")
+        return bool(m) and m in r
+    return bool(r)
 
 
 def impl_schema(case):
@@ -405,7 +424,7 @@ def impl_schema(case):
         if k in names:
             bad = tables[k][0][1] is None
             pol = effective(names[k], inv)
-            if bad and pol == "exclude" and not names[k]["required"]:
+            if bad and pol == "exclude" and not is_required(names[k], opts):
                 removed.add(k)
             if bad and pol == "preserve":
                 preserved = True
@@ -432,45 +451,50 @@ def impl_schema(case):
     return res
 
 
-def impl_func(case):
+def _make_fn(case, opts, strict=False):
+    """def f(p0: T0 = d0, ..., *args: TA, **kw: TK): return ((p0, ...), args, kw) — built from the descriptor"""
     from utype import parse
+    key = ("fns:" if strict else "fn:") + _jkey([case.get("params", []), case["pos"], case["kw"], opts])
+    if key in _CACHE:
+        return _CACHE[key]
+    ns, sig, names = {}, [], []
+    for i, q in enumerate(case.get("params", [])):
+        ns[f"T{i}"], ns[f"D{i}"] = ann(q["type"]), dec(q["default"])
+        sig.append(f"{q['name']}: T{i} = D{i}")
+        names.append(q["name"])
+    if case["pos"] is not None:
+        ns["TA"] = ann(case["pos"])
+    if case["kw"] is not None:
+        ns["TK"] = ann(case["kw"])
+    sig.append("*args: TA" if case["pos"] is not None else "*args")
+    sig.append("**kw: TK" if case["kw"] is not None else "**kw")
+    src = f"def f({', '.join(sig)}):\n    return (({''.join(n + ', ' for n in names)}), args, kw)\n"
+    exec(src, ns)
+    _CACHE[key] = parse(ns["f"], options=_options(opts))
+    return _CACHE[key]
+
+
+def impl_func(case):
     opts = case["opts"]
-    key = "fn:" + _jkey([case["pos"], case["kw"], opts])
-    if key not in _CACHE:
-        def f(*args, **kw):
-            return (args, kw)
-        an = {}
-        if case["pos"] is not None:
-            an["args"] = ann(case["pos"])
-        if case["kw"] is not None:
-            an["kw"] = ann(case["kw"])
-        f.__annotations__ = an
-        _CACHE[key] = parse(f, options=_options(opts))
-    fn = _CACHE[key]
+    fn = _make_fn(case, opts)
+    params = case.get("params", [])
     args = [dec(a) for a in case["args"]]
     kwargs = {k: dec(v) for k, v in case["kwargs"]}
     res = {"out": outcome(lambda: fn(*args, **kwargs)), "strict": None}
-    pos_table = [[enc(a), conv(case["pos"], a, opts)] for a in args] if case["pos"] is not None else None
+    np_ = len(params)
+    param_tables = [[[enc(args[i]), conv(q["type"], args[i], opts)]] if i < len(args) else [] for i, q in enumerate(params)]
+    vargs = args[np_:]
+    pos_table = [[enc(a), conv(case["pos"], a, opts)] for a in vargs] if case["pos"] is not None else None
     kw_table = [[enc(v), conv(case["kw"], v, opts)] for v in kwargs.values()] if case["kw"] is not None else []
-    res["probe"] = {"pos_table": pos_table, "kw_table": kw_table}
+    res["probe"] = {"pos_table": pos_table, "kw_table": kw_table, "param_tables": param_tables}
     pi, inv = opts.get("invalid_items", "throw"), opts.get("invalid_values", "throw")
-    if pi != "preserve" and inv != "preserve":
-        a2 = [a for a, r in zip(args, pos_table) if not (pi == "exclude" and r[1] is None)] if pos_table is not None else args
+    params_clean = all(t[0][1] is not None for t in param_tables if t)
+    if pi != "preserve" and inv != "preserve" and params_clean:
+        a2 = [a for a, r in zip(vargs, pos_table) if not (pi == "exclude" and r[1] is None)] if pos_table is not None else vargs
         k2 = {k: v for (k, v), r in zip(kwargs.items(), kw_table) if not (inv == "exclude" and r[1] is None)} \
             if case["kw"] is not None else kwargs
-        key2 = "fn:" + _jkey([case["pos"], case["kw"], "strict"])
-        if key2 not in _CACHE:
-            def g(*args, **kw):
-                return (args, kw)
-            g.__annotations__ = dict(fn.__annotations__) if hasattr(fn, "__annotations__") else {}
-            an = {}
-            if case["pos"] is not None:
-                an["args"] = ann(case["pos"])
-            if case["kw"] is not None:
-                an["kw"] = ann(case["kw"])
-            g.__annotations__ = an
-            _CACHE[key2] = parse(g, options=_options({"invalid_items": "throw", "invalid_values": "throw"}))
-        res["strict"] = outcome(lambda: _CACHE[key2](*a2, **k2))
+        g = _make_fn(case, {"invalid_items": "throw", "invalid_values": "throw"}, strict=True)
+        res["strict"] = outcome(lambda: g(*(args[:np_] + a2), **k2))
     return res
 
 
@@ -479,16 +503,16 @@ def impl_func(case):
 # ------------------------------------------------------------------------------------------------
 
 GOOD = {
-    "int": [1, "2", 3.0, 0, "-4", 17],
+    "int": [1, "2", 3.0, 0, "-4", 17, None],
     "posint": [0, 3, "5", 2.0, 11],
     "str3": ["a", "bc", 7, "xyz", ""],
     "float": [1.5, "2.5", 3],
 }
 BAD = {
-    "int": ["x", "bad", "1.2.3", None],
-    "posint": [-1, "-5", "x", None],
+    "int": ["x", "bad", "1.2.3", "z9"],
+    "posint": [-1, "-5", "x", "bad"],
     "str3": ["toolong", "abcd", 12345],
-    "float": ["x", "--1", None],
+    "float": ["x", "--1", "bad"],
 }
 NESTED = {
     "list_int": ({"list": "int"}, [[1, "2"], [], (3,), [4]], [[1, "x"], ["bad"], [None, 2]]),
@@ -607,29 +631,40 @@ def gen_tuple_fixed(rng, opts=None):
             "value": enc(tuple(vals)), "pattern": pat}
 
 
-def gen_field(rng, name, shape=None, on_error="?", tname=None):
+def gen_field(rng, name, shape=None, on_error="?", tname=None, deps=None, req=None):
+    """shape: required | optional | default | modereq (required='w'...) | modereq_default (… with a default)"""
     tname = tname or rng.choice(["int", "int", "posint", "str3", "list_int"])
     desc = elem_pool(tname)[0]
-    shape = shape or rng.choice(["required", "optional", "default"])
-    f = {"name": name, "type": desc, "tname": tname, "required": shape == "required", "has_default": shape == "default",
-         "default": enc(rng.choice(elem_pool(tname)[1][:2]) if tname not in NESTED else [9]) if shape == "default" else None}
-    if shape == "default" and tname in ("int", "posint"):
-        f["default"] = enc(rng.choice([7, 9]))
-    if shape == "default" and tname == "str3":
-        f["default"] = enc("dd")
+    shape = shape or rng.choice(["required", "optional", "default", "default", "modereq", "modereq_default"])
+    has_default = shape in ("default", "modereq_default")
+    if req is None:
+        req = True if shape == "required" else (rng.choice(["r", "w", "rw", "a"]) if shape.startswith("modereq") else False)
+    f = {"name": name, "type": desc, "tname": tname, "req": req, "has_default": has_default, "default": None,
+         "deps": list(deps or [])}
+    if has_default:
+        f["default"] = enc({"int": rng.choice([7, 9]), "posint": rng.choice([7, 9]), "str3": "dd"}.get(tname, [9]))
     oe = rng.choice([None, None, "throw", "exclude", "preserve"]) if on_error == "?" else on_error
-    if oe == "exclude" and shape == "required":
-        oe = None       # Field() itself refuses required + on_error='exclude'
+    if oe == "exclude" and req:
+        oe = None       # Field() itself refuses a (mode-)required field with on_error='exclude'
     f["on_error"] = oe
     return f
 
 
 def gen_schema(rng, fields=None, presence=None, extras=None, opts=None, props=None, prop_oe="?"):
     if fields is None:
-        fields = [gen_field(rng, nm) for nm in ["a", "b", "c", "d"][: rng.choice([1, 2, 2, 3, 4])]]
+        names = ["a", "b", "c", "d"][: rng.choice([1, 2, 2, 3, 4])]
+        fields = []
+        for nm in names:
+            others = [o for o in names if o != nm]
+            deps = rng.sample(others, rng.choice([1, 1, 2]) if len(others) > 1 else 1) \
+                if others and rng.random() < 0.35 else []
+            fields.append(gen_field(rng, nm, deps=deps))
     if opts is None:
         opts = {"invalid_values": rng.choice(POLICIES), "invalid_items": rng.choice(POLICIES),
                 "data_first_search": rng.choice([True, False])}
+        m = rng.choice([None, None, "r", "w", "w", "a"])
+        if m:
+            opts["mode"] = m
         add = rng.choice(["none", "none", True, False, "int", "str3"])
         if add != "none":
             opts["addition"] = LEAVES.get(add, add) if isinstance(add, str) else add
@@ -660,22 +695,33 @@ def gen_schema(rng, fields=None, presence=None, extras=None, opts=None, props=No
             "pattern": ",".join(presence) + "|" + ",".join(extras) + "|" + ",".join(props)}
 
 
-def gen_func(rng, opts=None, pattern=None, kwpat=None):
+def gen_func(rng, opts=None, pattern=None, kwpat=None, ppat=None):
     pos = rng.choice(["int", "posint", "str3", None])
     kw = rng.choice(["int", "str3", None])
+    # leading positional parameters, each with a default (parse_value's default-returning path)
+    ppat = rand_pattern(rng, rng.choice([0, 0, 1, 2])) if ppat is None else ppat
+    params, pargs = [], []
+    for i, ch in enumerate(ppat):
+        tn = rng.choice(["int", "posint", "str3"])
+        params.append({"name": f"p{i}", "type": LEAVES[tn], "tname": tn, "req": False, "has_default": True,
+                       "default": enc({"int": 7, "posint": 9, "str3": "dd"}[tn]), "on_error": None, "deps": []})
+        pargs.append(enc(rng.choice(GOOD[tn] if ch == "g" else BAD[tn])))
+    given = len(pargs) if rng.random() < 0.8 else rng.randrange(len(pargs) + 1)
+    pargs = pargs[:given]
     pattern = rand_pattern(rng) if pattern is None else pattern
     args = []
-    for ch in pattern:
-        nm = pos or "int"
-        args.append(enc(rng.choice(GOOD[nm] if ch == "g" else BAD[nm])))
+    if given == len(params):            # *args can only follow when every parameter is given positionally
+        for ch in pattern:
+            nm = pos or "int"
+            args.append(enc(rng.choice(GOOD[nm] if ch == "g" else BAD[nm])))
     kwpat = kwpat if kwpat is not None else rand_pattern(rng, rng.choice([0, 1, 2, 3]))
     kwargs = []
     for i, ch in enumerate(kwpat):
         nm = kw or "int"
         kwargs.append([f"k{i}", enc(rng.choice(GOOD[nm] if ch == "g" else BAD[nm]))])
     o = opts or {"invalid_items": rng.choice(POLICIES), "invalid_values": rng.choice(POLICIES)}
-    return {"op": "func", "pos": LEAVES.get(pos) if pos else None, "kw": LEAVES.get(kw) if kw else None, "opts": o,
-            "args": args, "kwargs": kwargs, "pattern": pattern + "|" + kwpat}
+    return {"op": "func", "params": params, "pos": LEAVES.get(pos) if pos else None, "kw": LEAVES.get(kw) if kw else None,
+            "opts": o, "args": pargs + args, "kwargs": kwargs, "pattern": ppat + "/" + pattern + "|" + kwpat}
 
 
 def gen_case(rng):
@@ -744,6 +790,35 @@ def exhaustive_cases(rng, tier):
                                 g = gen_field(rng, "b", shape="default", on_error=None, tname="int")
                                 out.append(gen_schema(rng, fields=[f, g], presence=[pres, rng.choice(["absent", "good"])],
                                                       extras=ex, opts=o))
+    # mode-dependent `required` (with and without a default) x Options.mode x on_error x presence x policy x strategy
+    for shape in ["modereq", "modereq_default"]:
+        for req in ["w", "rw"] if tier == "quick" else ["r", "w", "rw"]:
+            for mode in [None, "r", "w"]:
+                for oe, tn in [(None, "int"), (None, "posint"), (None, "str3"), ("throw", "int"), ("preserve", "posint")]:
+                    for pres in ["absent", "good", "bad"]:
+                        for inv in POLICIES:
+                            for dfs in [True, False]:
+                                o = {"invalid_values": inv, "data_first_search": dfs}
+                                if mode:
+                                    o["mode"] = mode
+                                f = gen_field(rng, "a", shape=shape, on_error=oe, tname=tn, req=req)
+                                g = gen_field(rng, "b", shape="optional", on_error=None, tname="int")
+                                out.append(gen_schema(rng, fields=[f, g], presence=[pres, rng.choice(["absent", "good"])],
+                                                      extras=[], opts=o, props=[]))
+    # dependencies: a depends on b; every shape / presence / policy / strategy
+    for sa in ["optional", "default"]:
+        for sb in ["optional", "default", "required"]:
+            for pa in ["absent", "good", "bad"]:
+                for pb in ["absent", "good", "bad"]:
+                    for inv in POLICIES:
+                        for oe in [None, "exclude", "preserve"]:
+                            for dfs in [True, False]:
+                                fa = gen_field(rng, "a", shape=sa, on_error=oe, tname="int", deps=["b"])
+                                fb = gen_field(rng, "b", shape=sb, on_error=None, tname=rng.choice(["int", "posint"]))
+                                order = [fa, fb] if rng.random() < 0.5 else [fb, fa]
+                                pres = [pa, pb] if order[0] is fa else [pb, pa]
+                                out.append(gen_schema(rng, fields=order, presence=pres, extras=[],
+                                                      opts={"invalid_values": inv, "data_first_search": dfs}, props=[]))
     # one @property x on_error x invalid_values x good/bad result
     for oe in [None, "throw", "exclude", "preserve"]:
         for inv in POLICIES:
@@ -759,7 +834,13 @@ def exhaustive_cases(rng, tier):
             for pi in POLICIES:
                 for inv in POLICIES:
                     out.append(gen_func(rng, opts={"invalid_items": pi, "invalid_values": inv}, pattern=pat,
-                                        kwpat=rng.choice(["", "g", "b", "gb", "bg"])))
+                                        kwpat=rng.choice(["", "g", "b", "gb", "bg"]), ppat=""))
+    for ppat in ["g", "b", "gg", "gb", "bg", "bb"]:
+        for pi in POLICIES:
+            for inv in POLICIES:
+                for pat in ["", "g", "b", "gb"]:
+                    out.append(gen_func(rng, opts={"invalid_items": pi, "invalid_values": inv}, pattern=pat,
+                                        kwpat=rng.choice(["", "g", "b"]), ppat=ppat))
     return out
 
 
@@ -787,8 +868,10 @@ def model_line(case, io):
     if case["op"] == "schema":
         addition = "ignore" if add is None else ("forbid" if add is False else ("keep" if add is True else "typed"))
         return {"op": "schema", "inv": opts.get("invalid_values", "throw"), "dfs": bool(opts.get("data_first_search")),
-                "fields": [{"name": f["name"], "required": f["required"], "has_default": f["has_default"],
-                            "default": f["default"], "on_error": f["on_error"], "table": pr["tables"][f["name"]]}
+                "mode": opts.get("mode"), "legacy_deps": bool(case.get("legacy_deps")),
+                "fields": [{"name": f["name"], "req": field_req(f), "has_default": f["has_default"],
+                            "default": f["default"], "on_error": f["on_error"], "deps": list(f.get("deps", [])),
+                            "table": pr["tables"][f["name"]]}
                            for f in case["fields"]],
                 "addition": addition, "add_table": pr["add_table"], "data": case["data"],
                 "props": [{"name": q["name"], "on_error": q.get("on_error"), "table": pr["prop_tables"][q["name"]],
@@ -796,6 +879,8 @@ def model_line(case, io):
     if case["op"] == "func":
         return {"op": "func", "pol_items": opts.get("invalid_items", "throw"), "inv": opts.get("invalid_values", "throw"),
                 "pos_table": pr["pos_table"], "args": case["args"],
+                "params": [{"name": q["name"], "req": False, "has_default": True, "default": q["default"], "on_error": None,
+                            "deps": [], "table": t} for q, t in zip(case.get("params", []), pr.get("param_tables", []))],
                 "addition": "typed" if case["kw"] is not None else "keep", "add_table": pr["kw_table"],
                 "kwargs": case["kwargs"]}
     return {"op": "skip"}
@@ -830,7 +915,8 @@ def offenders(case, io):
         return sum(1 for t in pr["tables"].values() for r in t if r[1] is None) + sum(1 for r in pr["add_table"] if r[1] is None) \
             + sum(1 for t in pr.get("prop_tables", {}).values() if t is not None and t[0][1] is None)
     if case["op"] == "func":
-        return sum(1 for r in (pr["pos_table"] or []) if r[1] is None) + sum(1 for r in pr["kw_table"] if r[1] is None)
+        return sum(1 for r in (pr["pos_table"] or []) if r[1] is None) + sum(1 for r in pr["kw_table"] if r[1] is None) \
+            + sum(1 for t in pr.get("param_tables", []) if t and t[0][1] is None)
     return 0
 
 
@@ -858,7 +944,7 @@ class C11(Check):
     impl = "harness.c11:impl"
     case_timeout = 20.0
     rule = ("containers List/Set/FrozenSet/Tuple[T,...]/Tuple[A,B]/Dict[K,V] over leaf, constrained, nested and data-class "
-            "element types, data classes (1-4 fields: required/optional/default x on_error x addition None/True/False/type x "
+            "element types, data classes (1-4 fields: required True/False/'r'/'w'/'rw' x default x Options.mode x dependencies x on_error x addition None/True/False/type x "
             "both lookup strategies), and *args/**kwargs functions, each under random 3x3x3 policy combinations with 0-3 "
             "offending elements at random positions, reached through type_transform, a Schema field or a @parse function; "
             "plus exhaustive placements (quick: len<=4; thorough: every placement of <=3 offenders in len<=6 x all 27 "
@@ -867,7 +953,7 @@ class C11(Check):
             "as measured on the real code, input)")
     assumptions = [
         "element/key/value/field converters are abstract in the theorems; in T2 they are sampled from the real code by parsing each element in isolation under the same options",
-        "fail-fast parsing (collect_errors=False), no max_depth, fields without alias/no_input/dependencies/mode: outside this fragment the model does not speak",
+        "fail-fast parsing (collect_errors=False), no max_depth, fields without alias/no_input/field-level mode= (mode-dependent required, defaults and dependencies are modelled): outside this fragment the model does not speak",
         "the dict/set built from the model's insertion log is constructed by CPython in the harness",
     ]
     budget = {"quick": 5000, "thorough": 100000}
@@ -901,11 +987,16 @@ class C11(Check):
             if not same:
                 return f"LEAN: model {m} differs from the theorem's right-hand side {mo['spec']}"
         if case["op"] == "func":
-            if m["args"] != mo["spec"]["args"]:
-                return f"LEAN: model args {m['args']} differ from the theorem's right-hand side {mo['spec']['args']}"
+            ma = {k: v for k, v in m["args"].items() if k != "params"}
+            np_ = len(case.get("params", []))
+            param_err = "err" in ma and ma.get("i", 99) < np_        # a declared parameter raised: *args never ran
+            if "err" in ma and not param_err:
+                ma = dict(ma, i=ma["i"] - np_)                        # *args are numbered after the parameters
+            if ma != mo["spec"]["args"] and not param_err:
+                return f"LEAN: model args {ma} differ from the theorem's right-hand side {mo['spec']['args']}"
             if "err" in m["args"] or "err" in m["kwargs"]:
                 return None if "err" in out else f"model raises, implementation: {out}"
-            want = {"t": [{"t": m["args"]["ok"]}, wrap_map(m["kwargs"]["ok"])]}
+            want = {"t": [{"t": m["args"]["params"]}, {"t": m["args"]["ok"]}, wrap_map(m["kwargs"]["ok"])]}
             if "ok" not in out or canon(out["ok"]) != canon(want):
                 return f"model {want} implementation {out}"
             return None
@@ -1031,35 +1122,49 @@ class C11(Check):
         data = {k: v for k, v in case["data"]}
         names = {f["name"]: f for f in case["fields"]}
         log, fail, why_fail = [], False, ""
+        given, demanded = set(), []
         for f in case["fields"]:
             nm = f["name"]
             present = nm in data
+            req = is_required(f, opts)
             if present:
                 raw, c = pr["tables"][nm][0]
                 pol = effective(f, inv)
-                if c is None and pol == "exclude" and not f["required"]:
+                if c is None and pol == "exclude" and not req:
                     present = False                        # the offending optional value is removed from the input
                 elif c is None and pol == "preserve":
                     log.append([nm, raw])
+                    given.add(nm)
+                    demanded += [(nm, d) for d in f.get("deps", [])]
                     continue
                 elif c is None:
-                    fail, why_fail = True, f"offending value for field {nm!r} (policy {pol}, required={f['required']})"
+                    if not fail:
+                        fail, why_fail = True, f"offending value for field {nm!r} (policy {pol}, required={req})"
                     continue
                 else:
                     log.append([nm, c])
+                    given.add(nm)
+                    demanded += [(nm, d) for d in f.get("deps", [])]
                     continue
             if not present:
-                if f["required"]:
-                    fail, why_fail = True, f"required field {nm!r} absent"
+                if req:
+                    if not fail:
+                        fail, why_fail = True, f"required field {nm!r} absent"
                 elif f["has_default"]:
                     log.append([nm, f["default"]])
+        # a field that was accepted needs the fields it depends on to be given as well; an excluded field was
+        # removed from the input: it demands nothing and is not "given" for anybody else
+        for nm, d in demanded:
+            if d not in given and not fail:
+                fail, why_fail = True, f"field {nm!r} given without its dependency {d!r}"
         extras = [(k, v) for k, v in case["data"] if k not in names]
         tab = {_jkey(r): c for r, c in pr["add_table"]}
         for k, v in extras:
             if add is None:
                 continue
             if add is False:
-                fail, why_fail = True, f"extra key {k!r} with addition=False"
+                if not fail:
+                    fail, why_fail = True, f"extra key {k!r} with addition=False"
             elif add is True:
                 log.append([k, v])
             else:
@@ -1071,7 +1176,8 @@ class C11(Check):
                 elif inv == "preserve":
                     log.append([k, v])
                 else:
-                    fail, why_fail = True, f"offending extra key {k!r}"
+                    if not fail:
+                        fail, why_fail = True, f"offending extra key {k!r}"
         for q in case.get("props", []):
             t = pr["prop_tables"][q["name"]]
             if t is None:
@@ -1086,7 +1192,8 @@ class C11(Check):
             elif pol == "preserve":
                 log.append([q["name"], raw])
             else:
-                fail, why_fail = True, f"offending @property result {q['name']!r}"
+                if not fail:
+                    fail, why_fail = True, f"offending @property result {q['name']!r}"
         want = None if fail else wrap_map(log, cls="S")
         why = self._expect(out, want, f"data class under invalid_values={inv}" + (f" [{why_fail}]" if fail else ""))
         strict = io.get("strict")
@@ -1100,8 +1207,23 @@ class C11(Check):
         pr, opts = io["probe"], case["opts"]
         pi, inv = opts.get("invalid_items", "throw"), opts.get("invalid_values", "throw")
         fail = False
+        params, np_ = case.get("params", []), len(case.get("params", []))
+        pvals = []
+        for q, t in zip(params, pr.get("param_tables", [])):
+            if not t:
+                pvals.append(q["default"])             # not given: the parameter's default
+                continue
+            r, c = t[0]
+            if c is not None:
+                pvals.append(c)
+            elif inv == "exclude":
+                pvals.append(q["default"])             # excluded: as if the argument had not been given
+            elif inv == "preserve":
+                pvals.append(r)
+            else:
+                fail = True
         if pr["pos_table"] is None:
-            args = list(case["args"])
+            args = list(case["args"][np_:])
         else:
             args = []
             for r, c in pr["pos_table"]:
@@ -1126,7 +1248,7 @@ class C11(Check):
                     kw.append([k, v])
                 else:
                     fail = True
-        want = None if fail else {"t": [{"t": args}, wrap_map(kw)]}
+        want = None if fail else {"t": [{"t": pvals}, {"t": args}, wrap_map(kw)]}
         why = self._expect(out, want, f"*args under invalid_items={pi}, **kwargs under invalid_values={inv}")
         strict = io.get("strict")
         if why or strict is None:
@@ -1147,6 +1269,15 @@ class C11(Check):
                 if t is not None and t[0][1] is None and (q.get("on_error") or inv) != "throw" \
                         and isinstance(q["type"], dict) and "c" in q["type"]:
                     return "output-error-leak"
+        if case["op"] == "schema" and any(f.get("deps") for f in case["fields"]):
+            # an excluded value with a default, in a declaration with dependencies
+            pr, inv = io.get("probe", {}), case["opts"].get("invalid_values", "throw")
+            data = dict(case["data"])
+            for f in case["fields"]:
+                t = pr.get("tables", {}).get(f["name"])
+                if f["name"] in data and t and t[0][1] is None and effective(f, inv) == "exclude" \
+                        and f.get("has_default") and not is_required(f, case["opts"]):
+                    return "excluded-default-counts-as-provided"
         return None
 
     def key(self, case, io):
